@@ -4,7 +4,7 @@ From TV Require Import Common.LSet Common.Harness C19.Model C19.Law C19.Corr C19
 Import ListNotations.
 Open Scope Z_scope.
 
-(* The whole law (7 clauses) holds at every step of the paired run (faulted object / twin), for every
+(* The whole law (8 clauses) holds at every step of the paired run (faulted object / twin), for every
    validator, getter, default, adapter behaviour, every start state, every history and every fault plan
    at every step (every ordinal k, every exception class, every handler). *)
 Theorem law_holds_on_every_faulted_history :
